@@ -16,7 +16,7 @@ OUTSIDE = [x for x in sched.OUTSIDE if 're-use' not in x] + ['re-use of one back
 BOUNDS = dict(**{'quick': {'tasks': 2, 'graphs': 'all 3 labelled graphs on 2 tasks', 'workers': [1, 2],
                                               'plus': '3-task chain, fan-in hard+soft, hard-then-soft chain with 1 worker',
                                               'outcomes': KINDS, 'depth': 'every run, first K = 22+11N+6W steps'},
-                                    'thorough': {'tasks': '<= 3', 'graphs': 'all 27 labelled graphs on 3 tasks (W=1), 2-task graphs W<=2',
+                                    'thorough': {'tasks': '<= 3', 'graphs': 'all 27 labelled graphs on 3 tasks (W=1), 2-task graphs W<=2 (two workers: no-edge and hard-edge graphs only)',
                                                  'outcomes': KINDS, 'depth': 'W=1 and (<= 2 tasks or no soft edge): K = 22+11N+6W established by the unwinding query (every run is complete within K); otherwise first K steps of every run (unwinding query out of reach)'}})
 EXPLANATION = ('extracted thread automata + z3 bounded model checking (QF_BV): at every terminated state of every interleaving the status map '
                'equals F(graph, outcomes) and no task was executed twice; counterexamples replayed on real threads')
@@ -91,7 +91,8 @@ def _job(n, hard, soft, w, tier, prior=None, seed=0):
 
 
 def jobs(tier):
-    out = sched.standard_jobs(tier, _job)
+    # n2w2-h_-s10: its three queries took 51 min in a full thorough run (per-query budget 45 min): outside the thorough bound
+    out = sched.standard_jobs(tier, _job, skip_thorough=('n2w2-h_-s10',))
     # "depends on the graph and task results only": the same task objects were scheduled before, in this
     # process, under a DIFFERENT graph (one concrete warm-up run precedes the extraction)
     for (n, hard, soft, w, prior) in [(2, [], [(1, 0)], 1, ([(1, 0)], [])), (2, [(1, 0)], [], 1, ([], []))]:
